@@ -91,8 +91,9 @@ def c14_queries(tier):
         # every class has its own set_nonce: zero length and a short nonce on each (quick), all four shapes (thorough)
         for nlen in ([0, 5, 16, 20] if cls in (0, 5) or tier == "thorough" else [0, 5]):
             qs.append(class_query("cpp-nonce", cls, 1, 0, nlen=nlen))
+        # decryption (accepted and rejected in one query) on every class: each class has its own do_decrypt (seed C14-5)
+        qs.append(class_query("cpp-nonce", cls, 1, 1, nlen=16))
         if tier == "thorough" or cls in (0, 5, 9):
-            qs.append(class_query("cpp-nonce", cls, 1, 1, nlen=16))
             qs.append(class_query("cpp-nonce", cls, 1, 0, counter=1))
     return qs
 
